@@ -20,8 +20,9 @@ CONSTANTS
   DlOffs = {0, 1, 2}
   MaxNow = 60
   Senders = {"u1", "u2", "u3"}
-  Recipients = {"u1", "u2", "u3", "feepool"}
+  Recipients = {"u1", "u2", "u3", "feepool", "module"}
   MaxSteps = 100
+  DonateAlso = {"module", "feepool"}
   WithUni = TRUE
 CONSTRAINT GenConstraint
 CHECK_DEADLOCK FALSE
